@@ -104,7 +104,7 @@ def run(module, tag, constants=None, invariants=(), properties=(), constraints=(
             p = subprocess.run(cmd, cwd=SPEC, stdout=fo, stderr=subprocess.STDOUT, timeout=timeout, env=e)
             rc = p.returncode
         except subprocess.TimeoutExpired:
-            rc = -9
+            rc = -99
     wall = time.time() - t0
     res = dict(out=[], prints=[], states=0, distinct=0, depth=0, violated=None, wall_s=wall, rc=rc, log=outp,
                coverage_zero=[])
@@ -134,7 +134,7 @@ def run(module, tag, constants=None, invariants=(), properties=(), constraints=(
             if mm:
                 res["violated"] = mm.group(1) or "temporal"
     res["text"] = "".join(text_tail[-200:])
-    if rc == -9:
+    if rc == -99:
         raise TLCError("TLC timed out after %ss on %s (log %s)" % (timeout, module, outp))
     finished = "Model checking completed" in res["text"] or "Finished in" in res["text"]
     if res["violated"] is None and (rc != 0 or not finished) and not simulate:
@@ -153,6 +153,7 @@ def run_sharded(module, tag, nparts, constants, **kw):
         c = dict(constants)
         c["Part"] = p
         c["NParts"] = nparts
+        kw.setdefault("heap", "%dm" % max(1024, 28000 // nparts))
         return run(module, "%s.p%d" % (tag, p), constants=c, workers=workers, **kw)
 
     with ThreadPoolExecutor(nparts) as ex:
